@@ -6,6 +6,8 @@ use std::cmp::{max, min};
 
 impl Query for Selector {
     fn process<'a, T: Queryable>(&self, step: State<'a, T>) -> State<'a, T> {
+        #[cfg(jsonpath_rust_verif)]
+        crate::verif::point(2);
         match self {
             Selector::Name(key) => step.flat_map(|d| process_key(d, key)),
             Selector::Index(idx) => step.flat_map(|d| process_index(d, idx)),
